@@ -263,7 +263,7 @@ def _run_score(cfg):
     pg = _install()
     rep = Report(cfg)
     px = [z3.Real(n) for n in ("ax", "ay", "bx", "by")]
-    base = [z3.And(v >= 0, v <= 3) for v in px]
+    base = [z3.And(v >= -8, v <= 8) for v in px]
     if not cfg["coincide"]:
         base.append(z3.Or(px[0] != px[2], px[1] != px[3]))
     else:
